@@ -23,6 +23,9 @@ pub struct DwarfOpts {
     pub no_set_address: bool,
     /// an extra line sequence based at 0xFFFFFFFF (what a linker leaves for code it discarded), lines from 1000000
     pub tombstoned_seq: bool,
+    /// every other subprogram has children (a parameter, a lexical block with its own range holding a variable), so
+    /// that sibling subprograms follow nested entries
+    pub nested: bool,
 }
 
 pub struct FuncLayout {
@@ -157,6 +160,21 @@ pub fn add_dwarf(wasm: &[u8], opts: DwarfOpts) -> Option<Vec<u8>> {
         } else {
             e.set(gimli::DW_AT_high_pc, AttributeValue::Udata(f.end - f.body_start));
         }
+        if opts.nested && i % 2 == 0 {
+            let p = dwarf.unit.add(id, gimli::DW_TAG_formal_parameter);
+            dwarf.unit.get_mut(p).set(gimli::DW_AT_name, AttributeValue::String(format!("p{}", i).into_bytes()));
+            let b = dwarf.unit.add(id, gimli::DW_TAG_lexical_block);
+            let lo = f.instrs.get(1).or(f.instrs.first()).copied().unwrap_or(f.body_start);
+            let e = dwarf.unit.get_mut(b);
+            e.set(gimli::DW_AT_low_pc, AttributeValue::Address(Address::Constant(lo)));
+            e.set(gimli::DW_AT_high_pc, AttributeValue::Udata(f.end - lo));
+            let v = dwarf.unit.add(b, gimli::DW_TAG_variable);
+            dwarf.unit.get_mut(v).set(gimli::DW_AT_name, AttributeValue::String(format!("v{}", i).into_bytes()));
+            if i % 4 == 0 {
+                let v2 = dwarf.unit.add(id, gimli::DW_TAG_variable);
+                dwarf.unit.get_mut(v2).set(gimli::DW_AT_name, AttributeValue::String(format!("w{}", i).into_bytes()));
+            }
+        }
     }
     let mut sections = Sections::new(EndianVec::new(LittleEndian));
     dwarf.write(&mut sections).ok()?;
@@ -190,5 +208,5 @@ pub fn materialize(spec: &str) -> Option<Vec<u8>> {
     let mode = it.next()?;
     let base = it.next()?;
     let wasm = crate::workload::materialize(base)?;
-    add_dwarf(&wasm, DwarfOpts { version, spanning: mode == "s" || mode == "n", file0: mode == "z", high_addr: mode == "a", no_set_address: mode == "n", tombstoned_seq: mode == "t" })
+    add_dwarf(&wasm, DwarfOpts { version, spanning: mode == "s" || mode == "n", file0: mode == "z", high_addr: mode == "a", no_set_address: mode == "n", tombstoned_seq: mode == "t", nested: mode == "k" })
 }
